@@ -229,8 +229,39 @@ def tiled(tier, seed):
         yield gen.case('TILED', rows, m, 'plain' if k % 2 else 'rev')
 
 
+def witness(tier, seed):
+    """Tall contexts in which the kind of a pair hinges on ONE object: the only object with both /
+    only the left / only the right / neither property sits at position k, k swept over word, digit and
+    power-of-two boundaries up to the last row (a scan that samples, chunks or stops early misses it)."""
+    import random as _r
+    rng = _r.Random(f'{seed}/witness')
+    sizes = (700, 2100) if tier == 'quick' else (300, 700, 1500, 5000, 20000, 70000)
+    marks = [0, 1, 29, 30, 59, 60, 63, 64, 65, 127, 128, 255, 256, 257, 511, 512, 513, 1023, 1024, 1025,
+             2047, 2048, 4095, 4096, 8191, 8192, 16383, 16384, 32767, 32768, 65535, 65536]
+    for n in sizes:
+        ks = [k for k in marks if k < n] + [n - 2, n - 1]
+        if tier == 'quick':
+            ks = [k for k in ks if k >= 250 or k in (0, 64)]
+        for k in ks:
+            full = (1 << n) - 1
+            bit = 1 << k
+            a = rng.getrandbits(n) & ~bit                     # k has none of the random columns
+            b = rng.getrandbits(n) & rng.getrandbits(n) & ~bit
+            c = rng.getrandbits(n) & ~bit
+            d = (c & rng.getrandbits(n)) & ~bit               # d strictly narrower than c (almost surely)
+            cols = [a, a | bit,                      # equal but for k, which has the right one only
+                    b | bit, full & ~b,              # complementary but for k, which has both
+                    c, full & ~c & ~bit,             # complementary but for k, which has neither
+                    d | bit, c,                      # d implies c but for k, which has the left one only
+                    bit, full & ~bit,                # true only at k / false only at k
+                    full & ~c & ~bit]                # an equal column far from its twin
+            rows = [sum(((col >> i) & 1) << j for j, col in enumerate(cols)) for i in range(n)]
+            yield gen.case(f'WITNESS:{n}@{k}', rows, len(cols), 'plain' if k % 2 else 'rev')
+
+
 def cases(tier, seed, spec):
     yield from tiled(tier, seed)
+    yield from witness(tier, seed)
     yield from wideprops(tier, seed)
     yield from targeted()
     # thousands of objects, a handful of properties (the wide shape would give millions of pairs)
